@@ -247,11 +247,53 @@ def touches_origin(shape, delta, t1, t2):
     return any(t == 0.0 for t in ts)
 
 
-def cell_key(shape, t1, point):
+def cell_class(shape, delta, t1, t2):
+    if shape in ("square", "rectangle") and delta is not None and 0.0 <= t1 < delta:
+        return shape + " straddling the diagonal (0 <= time_1 < delta)"
+    if shape == "rectangle" and delta is not None and t2 is not None and t2 - t1 < delta:
+        return "rectangle narrower than delta"
+    return shape
+
+
+def cell_key(shape, t1, point, delta=None, t2=None):
     if shape == "upper-triangle" and t1 != 0.0:
         return KEY_TRI
     return "cell:%s:%s:T%s vs integration of correlation()" % (
-        shape, point[3], "=0" if point[4] == 0 else ">0")
+        cell_class(shape, delta, t1, t2), point[3], "=0" if point[4] == 0 else ">0")
+
+
+def straddle_cells(dt):
+    """squares / rectangles whose region contains t' < t'' (time_1 < delta), and rectangles
+    narrower than delta"""
+    return [("square", 0.0, None), ("rectangle", 0.3 * dt, 0.8 * dt), ("rectangle", 2.0 * dt, 2.4 * dt),
+            ("square", 0.4 * dt, None), ("rectangle", 0.0, 1.5 * dt)]
+
+
+def oracle_identities(c2d, dt, symmetric=True, tol_rel=1e-9):
+    """relations between cells of one object (c2d(delta, time_1, time_2, shape) -> complex):
+    square(0) = 2 Re triangle(0) (conjugate-symmetric C), and for a = 0.3 delta (straddling) and
+    a = 2 delta:  rect[a, b] + rect[b, a + delta] = square(a)  with b = a + 0.4 delta.
+    Returns [(class, payload)] of the violated ones."""
+    out = []
+    tri = complex(c2d(dt, 0.0, None, "upper-triangle"))
+    scale = abs(tri)           # natural size of a cell (cells may vanish exactly, e.g. for modes
+    #                            whose period divides delta)
+    if symmetric:
+        sq0 = complex(c2d(dt, 0.0, None, "square"))
+        if abs(sq0 - 2 * tri.real) > tol_rel * (abs(sq0) + 2 * abs(tri)):
+            out.append(("square(0) = 2 Re upper-triangle(0)",
+                        {"delta": dt, "square(time_1=0)": [sq0.real, sq0.imag],
+                         "upper-triangle(time_1=0)": [tri.real, tri.imag]}))
+    for a in (0.3 * dt, 2.0 * dt):
+        b = a + 0.4 * dt
+        r1 = complex(c2d(dt, a, b, "rectangle"))
+        r2 = complex(c2d(dt, b, a + dt, "rectangle"))
+        sq = complex(c2d(dt, a, None, "square"))
+        if abs(r1 + r2 - sq) > tol_rel * (abs(r1) + abs(r2) + abs(sq) + scale):
+            out.append(("rect[a,b] + rect[b,a+delta] = square(a)",
+                        {"delta": dt, "a": a, "b": b, "rect[a,b]": [r1.real, r1.imag],
+                         "rect[b,a+delta]": [r2.real, r2.imag], "square(a)": [sq.real, sq.imag]}))
+    return out
 
 
 def oracle_tiling(obj, dt, n):
@@ -598,7 +640,7 @@ def mode_cells(d, rng, n):
     cells = [("square", k * d, None), ("upper-triangle", 0.0, None), ("rectangle", k * d, (k + 2) * d),
              ("upper-triangle", k * d, None), ("rectangle", k * d, (k + 1) * d),
              ("square", rng.uniform(0.5, 2.5) * d, None), ("rectangle", 1.5 * d, 3.5 * d)]
-    return cells[:n]
+    return cells[:n] + straddle_cells(d)[:(3 if n <= 5 else 5)]
 
 
 def oracle_modes(label, d, modes, temp, shape, t1, t2, independent=False):
@@ -631,9 +673,9 @@ def oracle_modes(label, d, modes, temp, shape, t1, t2, independent=False):
     return out
 
 
-def modes_key(label, shape):
+def modes_key(label, shape, delta=None, t1=0.0, t2=None):
     return "CustomCorrelations of finitely many modes (%s frequencies): %s vs analytic cell integral" % (
-        label, shape)
+        label, cell_class(shape, delta, t1 if delta is not None else 1.0, t2))
 
 
 # ---------------------------------------------------------------------------
@@ -938,6 +980,13 @@ def correspondence(res, tier, rng):
             res.count("direct:upper-triangle:matsubara")
             if badm is not None:
                 res.disagree("2D integral differs from direct integration: " + KEY_MATS_TRI, badm)
+        for cls_, pl in oracle_identities(lambda d_, a_, b_, sh_: obj.correlation_2d_integral(d_, a_, b_, sh_), dt):
+            pl.update({"class": "PowerLawSD", "point": pstr(pt)})
+            res.disagree("identity %s: PowerLawSD" % cls_, pl)
+        res.case("identities %s" % pstr(pt), True)
+        res.count("identities:PowerLawSD")
+        if i < (3 if tier == "quick" else nb):
+            cells = cells + straddle_cells(dt)[:(2 if tier == "quick" else 5)]
         for j, (shape, t1, t2) in enumerate(cells):
             if zero_bad is not None and touches_origin(shape, dt, t1, t2):
                 continue
@@ -952,7 +1001,7 @@ def correspondence(res, tier, rng):
                 unconv += 1
             elif bad is not None:
                 res.disagree("2D integral differs from direct integration of correlation(): "
-                             + cell_key(shape, t1, pt), bad)
+                             + cell_key(shape, t1, pt, dt, t2), bad)
     if unconv:
         res.notes.append("%d cells skipped: the Gauss-Legendre oracle did not converge" % unconv)
 
@@ -1021,7 +1070,12 @@ def correspondence(res, tier, rng):
         f, eta, g = simple_corr(a, lam)
         cc = CustomCorrelations(f)
         dt = rng.choice([0.05, 0.1, 0.3])
-        for (shape, t1, t2) in cells_for(rng, dt, 4):
+        for cls_, pl in oracle_identities(
+                lambda d_, a_, b_, sh_: cc.correlation_2d_integral(d_, a_, b_, sh_, epsrel=1e-10),
+                dt, symmetric=False, tol_rel=1e-7):
+            pl.update({"class": "CustomCorrelations", "a": repr(a), "lambda": repr(lam)})
+            res.disagree("identity %s: CustomCorrelations" % cls_, pl)
+        for (shape, t1, t2) in cells_for(rng, dt, 4) + straddle_cells(dt):
             v = complex(cc.correlation_2d_integral(dt, t1, t2, shape, epsrel=1e-10))
             e = complex(exact_cell(eta, g, shape, dt, t1, t2))
             res.case("customcorr %r %r %s %r %r %r" % (a, lam, shape, dt, t1, t2), True)
@@ -1037,7 +1091,7 @@ def correspondence(res, tier, rng):
             res.count("modes:%s:%s" % (label, shape))
             if bad is not None:
                 res.disagree("2D integral differs from the analytic cell integral: "
-                             + modes_key(label, shape), bad)
+                             + modes_key(label, shape, d, t1, t2), bad)
     mark("CustomCorrelations")
     res.notes.append("correspondence timing (cumulative): " + "; ".join(marks))
     for ph, n in sorted(wlog.counts.items()):
@@ -1085,8 +1139,19 @@ def search(res, rng=None, budget_points=None):
                 res.fail(KEY_MEMO, bad)
     # CustomCorrelations: finite-mode baths, commensurate and incommensurate frequencies
     for (label, d, modes, temp) in mode_cases(res.tier, rng):
+        from oqupy.bath_correlations import CustomCorrelations as _CC
+        _cc = _CC(mode_corr(modes, temp)[0])
+        for cls_, pl in oracle_identities(
+                lambda d_, a_, b_, sh_: _cc.correlation_2d_integral(d_, a_, b_, sh_, epsrel=1e-10),
+                d, tol_rel=1e-7):
+            key = "identity %s: CustomCorrelations" % cls_
+            if key not in seen:
+                seen.add(key)
+                pl.update({"class": "CustomCorrelations", "modes_(omega,g)": [list(m) for m in modes],
+                           "temperature": temp})
+                res.fail(key, pl)
         for (shape, t1, t2) in mode_cells(d, rng, 7):
-            key = modes_key(label, shape)
+            key = modes_key(label, shape, d, t1, t2)
             if key in seen:
                 continue
             bad = oracle_modes(label, d, modes, temp, shape, t1, t2)
@@ -1102,10 +1167,16 @@ def search(res, rng=None, budget_points=None):
         if zero_bad is not None and KEY_ETA0 not in seen:
             seen.add(KEY_ETA0)
             res.fail(KEY_ETA0, zero_bad)
-        for (shape, t1, t2) in cells_for(rng, dt, 4):
+        for cls_, pl in oracle_identities(lambda d_, a_, b_, sh_: obj.correlation_2d_integral(d_, a_, b_, sh_), dt):
+            key = "identity %s: %s" % (cls_, type(obj).__name__)
+            if key not in seen:
+                seen.add(key)
+                pl.update({"class": "PowerLawSD", "point": pstr(pt)})
+                res.fail(key, pl)
+        for (shape, t1, t2) in cells_for(rng, dt, 4) + straddle_cells(dt)[:3]:
             if zero_bad is not None and touches_origin(shape, dt, t1, t2):
                 continue
-            key = cell_key(shape, t1, pt)
+            key = cell_key(shape, t1, pt, dt, t2)
             if key in seen:
                 continue
             bad = oracle_cell(obj, pt, shape, dt, t1, t2)
@@ -1179,7 +1250,7 @@ def replay_case(res, payload):
         bad = oracle_modes(fi.get("kind", "?"), fi["delta"], modes, fi["temperature"], fi["shape"],
                            fi["time_1"], fi["time_2"])
         if bad is not None:
-            res.fail(key or modes_key(fi.get("kind", "?"), fi["shape"]), bad)
+            res.fail(key or modes_key(fi.get("kind", "?"), fi["shape"], fi["delta"], fi["time_1"], fi["time_2"]), bad)
             return True
         return False
     if "shape" in fi and "alpha" in fi:
@@ -1190,7 +1261,7 @@ def replay_case(res, payload):
         bad = oracle_cell(obj, pt, fi["shape"], fi["delta"], fi["time_1"], fi["time_2"],
                           check=not key.startswith("eta_function(0)"))
         if bad not in (None, "unconverged"):
-            res.fail(key or cell_key(fi["shape"], fi["time_1"], pt), bad)
+            res.fail(key or cell_key(fi["shape"], fi["time_1"], pt, fi["delta"], fi["time_2"]), bad)
             return True
     return False
 
@@ -1218,7 +1289,10 @@ def run(tier, seed, replay):
         "units 1e-6, 1e-9 hard cutoff; 1e-6, 1e-3, 1e3, 1e6 exponential/gaussian: same cells to "
         "1e-9 of the terms) and the T=0 exponential closed form in each time unit, memoised eta_function(tau) == un-memoised / keyword evaluation bit for bit, the "
         "tau seen by each integrand closure == the requested tau; offset upper-triangles in "
-        "imaginary time vs integration of the Matsubara correlation.  Distinct = distinct "
+        "imaginary time vs integration of the Matsubara correlation; squares/rectangles straddling "
+        "the diagonal (0 <= time_1 < delta) and rectangles narrower than delta for PowerLawSD "
+        "(direct integration) and CustomCorrelations (analytic), square(0) = 2 Re triangle(0), "
+        "rect[a,b] + rect[b,a+delta] = square(a).  Distinct = distinct "
         "protocol line / oracle call; non-trivial = a shape call that used >= 2 eta values, any "
         "integrand/oracle evaluation.")
     res.assumptions = [
@@ -1249,6 +1323,12 @@ def run(tier, seed, replay):
         "are shown to be the documented ones; region theorems assume eta'' = C)",
         "strict positivity Re eta_tri > 0 (proved: the integrand is >= 0 pointwise; > 0 needs J "
         "not to vanish almost everywhere)",
+        "imaginary-time cells whose region contains t' < t'' (matsubara=True with time_1 < delta) "
+        "are outside the domain: the object's own correlation(tau, matsubara=True) is defined "
+        "for 0 <= tau <= 1/T only (for tau < 0 it returns NaN for the exponential/gaussian "
+        "cutoffs and the diverging analytic continuation -- not the time-ordered C(|tau|) -- for "
+        "the hard one), so there is no integrand to compare with; GibbsTempo requests the "
+        "upper-triangle at 0 and squares at k*dt, k >= 1 only",
         "zeta < 0.2 at T > 0 (integrand singular like omega^(zeta-1)) is not sampled by the "
         "tolerance-based comparisons",
     ]
